@@ -190,7 +190,30 @@ fn sample(log: &Log<Sample>, host: usize, inc: u32, task: usize, opi: u32, phase
     });
 }
 
+/// Samples the clocks when the task is dropped (by a crash or a bounce): phase 99.
+struct SampleOnDrop(Log<Sample>, usize, u32, usize, Instant);
+impl Drop for SampleOnDrop {
+    fn drop(&mut self) {
+        // only inside a host context (dropping the whole Sim tears hosts down outside of one)
+        if turmoil::sim_elapsed().is_some() {
+            self.0.push(Sample {
+                fs_mtime: None,
+                host: self.1,
+                inc: self.2,
+                task: self.3,
+                opi: u32::MAX,
+                phase: 99,
+                elapsed: ns(turmoil::elapsed()),
+                sim_elapsed: ns(turmoil::sim_elapsed().unwrap()),
+                since_epoch: ns(turmoil::since_epoch().unwrap()),
+                inst: 0,
+            });
+        }
+    }
+}
+
 async fn run_task(log: Log<Sample>, host: usize, inc: u32, task: usize, ops: Vec<Op>, rounds: Option<u32>, t0: Instant) {
+    let _on_drop = SampleOnDrop(log.clone(), host, inc, task, t0);
     let mut opi = 0u32;
     let mut round = 0u32;
     loop {
@@ -373,6 +396,9 @@ fn check(s: &Scn, ex: &Exec, out: &mut ScenarioOut) {
     let mut last: std::collections::BTreeMap<usize, (u64, u64, u64)> = Default::default();
     for (step, sm) in &ex.samples {
         out.count("host_samples", 1);
+        if sm.phase == 99 {
+            out.count("clock_samples_taken_by_destructors_during_crash_or_bounce", 1);
+        }
         let n = *step;
         let off = s.hosts[sm.host].register_at * t;
         if sm.sim_elapsed != sm.elapsed + off {
@@ -410,6 +436,9 @@ fn check(s: &Scn, ex: &Exec, out: &mut ScenarioOut) {
     // timer exactness: pair before/after samples of one (host, inc, task, opi)
     let mut open: std::collections::BTreeMap<(usize, u32, usize, u32), &Sample> = Default::default();
     for (_, sm) in &ex.samples {
+        if sm.phase == 99 {
+            continue;
+        }
         let key = (sm.host, sm.inc, sm.task, sm.opi);
         let ops = &s.hosts[sm.host].tasks[sm.task];
         let op = &ops[(sm.opi as usize) % ops.len()];
@@ -545,6 +574,6 @@ fn fin() -> Finish<'static> {
             "the step a sample belongs to comes from the harness's own step counter".into(),
         ],
         min_distinct: 20,
-        required_counters: vec!["timer_observations", "samples_after_bounce", "samples_after_bounce_of_finished_host", "scenarios_with_epoch_unix_epoch", "controller_samples", "late_registrations", "file_timestamps_observed", "durations_not_a_multiple_of_tick_crossed", "steps_past_simulation_duration"],
+        required_counters: vec!["timer_observations", "samples_after_bounce", "samples_after_bounce_of_finished_host", "scenarios_with_epoch_unix_epoch", "controller_samples", "late_registrations", "file_timestamps_observed", "durations_not_a_multiple_of_tick_crossed", "steps_past_simulation_duration", "clock_samples_taken_by_destructors_during_crash_or_bounce"],
     }
 }
